@@ -768,6 +768,18 @@ func (env *SpecEnv) call(x *SExpr) (sval, error) {
 		}
 		e.U.declareFun("str.contains.Rune", []Sort{SStr, SInt}, SBool)
 		return sval{app(SBool, "str.contains.Rune", a.t, env.f.asInt(b.t)), types.Typ[types.Bool]}, nil
+	case "strcontains":
+		// strings.Contains(a, b) (the same uninterpreted function the code's call uses)
+		a, err := env.eval(args[0])
+		if err != nil {
+			return sval{}, err
+		}
+		b, err := env.eval(args[1])
+		if err != nil {
+			return sval{}, err
+		}
+		e.U.declareFun("str.contains.Str", []Sort{SStr, SStr}, SBool)
+		return sval{app(SBool, "str.contains.Str", a.t, b.t), types.Typ[types.Bool]}, nil
 	case "parseint", "parseok":
 		// strconv.ParseInt(s, 0, 0): the value of a C-style constant / whether it is one
 		v, err := env.eval(args[0])
@@ -903,6 +915,14 @@ func (env *SpecEnv) call(x *SExpr) (sval, error) {
 				sub.lookup = lk // source names denote their values at the site
 			}
 			return sub.eval(args[1])
+		}
+	case "siteret":
+		// siteret(NAME): the (first) result of the call that is site NAME
+		if len(args) == 1 && args[0].Op == "ident" {
+			if sv, ok := env.f.siteRets[args[0].Name]; ok {
+				return sv, nil
+			}
+			return sval{}, fmt.Errorf("siteret: site %s has no recorded result", args[0].Name)
 		}
 	case "sitearg":
 		// sitearg(NAME, i): argument i of the call that is site NAME, as it was
